@@ -2,9 +2,9 @@
    Concrete replicas (SyncModel.v): each keeps its tree up to date incrementally (upsert on every write and on
    every fetched pair, hash only when it serialises; page-hash caches carried from one step into the next),
    source side snapshotted. Events: Write r k x | HashEv r | Pull dst src, any interleaving, any number of
-   replicas. Merge: a linear join (max of a total order: selective, commutative, associative). *)
-From MST Require Import Base TreeM Diff Spec TreeHash TreeInv DiffTrees TreeRL DiffTop Sync SyncTop SyncRounds Sync6
-  SyncModel SyncLimit SyncFinal.
+   replicas. Merge: ANY join-semilattice (idempotent, commutative, associative). *)
+From MST Require Import Base TreeM Diff Spec TreeHash TreeInv DiffTrees TreeRL DiffTop Sync SyncTop SyncRounds SyncG
+  SyncModel SyncLimitG SyncFinalG.
 
 (* refinement: every schedule runs without panic; the stores evolve as in the store-level system [a_run]; and
    every replica's incremental tree is, up to caches, the tree freshly built from its store, with the same
@@ -41,7 +41,7 @@ Theorem C06_limit :
   forall (Val : Type) (val_dec : forall a b : Val, {a = b} + {a <> b}) (vh : Val -> V),
   (forall a b : Val, vh a = vh b -> a = b) ->
   forall merge : Val -> Val -> Val,
-  (forall o x : Val, merge o x = o \/ merge o x = x) ->
+  (forall x : Val, merge x x = x) ->
   (forall o x : Val, merge o x = merge x o) ->
   (forall a b c : Val, merge a (merge b c) = merge (merge a b) c) ->
   forall (n : nat) (es : list (event Val)),
@@ -59,10 +59,11 @@ Theorem C06_limit :
        (forall a b : replica digest V Val, In a rs -> In b rs ->
           snd (mst_root_hash digest V H (r_tree digest V Val a)) =
           snd (mst_root_hash digest V H (r_tree digest V Val b)))).
-Proof. exact SyncFinal.C06_limit. Qed.
+Proof. exact SyncFinalG.C06_limit. Qed.
 Print Assumptions C06_limit.
 
-(* store-level core (kept pinned): M strictly decreases on every changing pull, blocks force a change *)
+(* store-level core (kept pinned): M = number of (replica, key, reference entry) triples not yet absorbed;
+   it strictly decreases on every changing pull, and a block of all pairs forces a change (C05_progress) *)
 Theorem C06_converges :
   forall (digest V : Type) (H : list (tok digest V) -> digest) (lvl_of : N -> N),
   (forall k : N, lvl_of k < 255) ->
@@ -71,16 +72,16 @@ Theorem C06_converges :
   forall (Val : Type) (val_dec : forall a b : Val, {a = b} + {a <> b}) (vh : Val -> V),
   (forall a b : Val, vh a = vh b -> a = b) ->
   forall merge : Val -> Val -> Val,
-  (forall o x : Val, merge o x = o \/ merge o x = x) ->
+  (forall x : Val, merge x x = x) ->
   (forall o x : Val, merge o x = merge x o) ->
   (forall a b c : Val, merge a (merge b c) = merge (merge a b) c) ->
   forall (U : list N) (S0 : list (store Val)) (blocks : list (list (nat * nat))) (S : list (store Val)),
-  okS Val U S0 S -> Forall (all_pairs (length S)) blocks ->
+  okS Val merge U S0 S -> Forall (all_pairs (length S)) blocks ->
   (M Val val_dec merge U S0 S <= length blocks)%nat ->
   all_equal Val (runp digest deqb Val merge (ser digest V H lvl_of Val vh) S (concat blocks)).
 Proof.
   intros digest V H lvl_of Hl deqb Hd Hinj Val val_dec vh Hvh merge Hsel Hcomm Hassoc.
-  exact (Sync6.C06_converges digest V H deqb Hd Hinj Val val_dec vh Hvh merge Hsel Hcomm Hassoc
+  exact (SyncG.C06_converges digest V H deqb Hd Hinj Val val_dec vh Hvh merge Hsel Hcomm Hassoc
            (ser digest V H lvl_of Val vh) (ser_RL digest V H lvl_of Hl Val vh)).
 Qed.
 Print Assumptions C06_converges.
